@@ -192,6 +192,7 @@ func (sb *seqbag) AppendSeqIdentifier(identifier string, right bool) {
 				seq.name = identifier + seq.name
 			}
 		}
+		sb.reindex()
 	}
 }
 
@@ -283,6 +284,20 @@ func (sb *seqbag) CleanNames(namemap map[string]string) {
 		seq.name = inside.ReplaceAllString(seq.name, "-")
 		if namemap != nil {
 			namemap[old] = seq.name
+		}
+	}
+	sb.reindex()
+}
+
+// reindex rebuilds the name index after sequence names have been edited
+// in place, so that lookups by name see the new names. If several sequences
+// end up with the same name, the name designates the first of them (as
+// GetSequenceIdByName does).
+func (sb *seqbag) reindex() {
+	sb.seqmap = make(map[string]*seq, len(sb.seqs))
+	for _, s := range sb.seqs {
+		if _, ok := sb.seqmap[s.name]; !ok {
+			sb.seqmap[s.name] = s
 		}
 	}
 }
@@ -808,6 +823,7 @@ func (sb *seqbag) Rename(namemap map[string]string) {
 		// 	io.PrintMessage("Sequence " + a.seqs[seq].name + " not present in the map file")
 		// }
 	}
+	sb.reindex()
 }
 
 // Shuffle the order of the sequences in the alignment
@@ -835,6 +851,7 @@ func (sb *seqbag) RenameRegexp(regex, replace string, namemap map[string]string)
 		namemap[sb.seqs[seq].name] = newname
 		sb.seqs[seq].name = newname
 	}
+	sb.reindex()
 	return nil
 }
 
@@ -1111,6 +1128,7 @@ func (sb *seqbag) TrimNames(namemap map[string]string, size int) error {
 		seq.name = newname
 		sb.seqmap[seq.name] = seq
 	}
+	sb.reindex()
 
 	return nil
 }
@@ -1132,6 +1150,7 @@ func (sb *seqbag) TrimNamesAuto(namemap map[string]string, curid *int) (err erro
 		}
 		seq.name = newname
 	}
+	sb.reindex()
 	return
 }
 
